@@ -152,3 +152,53 @@ Proof.
   intros H. apply (H 0%nat 1%nat 1 102 ltac:(auto)); vm_compute; auto.
 Qed.
 Print Assumptions C08_never_unreceive_nonvacuous.
+
+(* THE SIZE LIMIT OF THE ORACLE.  The oracle excuses a missing first-time arrival when the
+   block holds at least fair_share maxSize k entries ("pushed out by the size limit").
+   Independent of its formula, fair_share is the LARGEST even count p <= 16384 for which
+   k blocks of p entries fit the maximum size; any larger even count does not fit. *)
+Theorem C08_fair_share_is_the_size_limit : forall maxSize k, 0 < k -> 12 + 8 * k <= maxSize ->
+  let p := fair_share maxSize k in
+  0 <= p <= 16384 /\ p mod 2 = 0 /\ 12 + k * (8 + 2 * p) <= maxSize /\
+  (forall p', p' mod 2 = 0 -> p < p' <= 16384 -> maxSize < 12 + k * (8 + 2 * p')).
+Proof. exact fair_share_maximal. Qed.
+Print Assumptions C08_fair_share_is_the_size_limit.
+
+(* OUTPUT LEVEL, "marked received exactly if it arrived".  [snapshots [] ops outs] pairs the
+   statuses of report i with os_i, the pure recount of the arrivals that precede report i
+   ([arrived os_i ssrc k]: a copy of packet k of stream ssrc is among them).  For ANY accepted
+   reports: an entry about (ssrc, k) in report i says "received" exactly if the packet arrived
+   before report i; and what has arrived stays arrived (any reports).  These two give
+   never-unreceive and "never reported lost after it arrived". *)
+Theorem C08_accepted_reports_received_iff_arrived : forall ops outs, Forall wf_op ops ->
+  (spec_walk [] ops outs = 0%nat \/ spec_walk [] ops outs = 7%nat) ->
+  forall i os_i st_i, nth_error (snapshots [] ops outs) i = Some (os_i, st_i) ->
+  forall ssrc k b, In (ssrc, k, b) st_i -> (b = true <-> arrived os_i ssrc k).
+Proof. exact accepted_received_iff_arrived. Qed.
+Print Assumptions C08_accepted_reports_received_iff_arrived.
+
+Theorem C08_arrived_monotone : forall ops outs, Forall wf_op ops ->
+  forall i j os_i st_i os_j st_j, (i <= j)%nat ->
+  nth_error (snapshots [] ops outs) i = Some (os_i, st_i) ->
+  nth_error (snapshots [] ops outs) j = Some (os_j, st_j) ->
+  forall ssrc k, arrived os_i ssrc k -> arrived os_j ssrc k.
+Proof. exact arrived_monotone_from_start. Qed.
+Print Assumptions C08_arrived_monotone.
+
+(* the statuses are the second components of the snapshots *)
+Theorem C08_statuses_snapshots : forall ops outs,
+  statuses [] ops outs = map snd (snapshots [] ops outs).
+Proof. intros ops outs. exact (statuses_snapshots ops [] outs). Qed.
+Print Assumptions C08_statuses_snapshots.
+
+Example C08_received_iff_arrived_nonvacuous :
+  let ops := [Add 1000 1 100 0; Add 2000 1 102 0; Build 3000 1200; Add 4000 1 103 0; Build 5000 1200] in
+  exists os1 st1, nth_error (snapshots [] ops (model_outs ato_kernel [] ops)) 1 = Some (os1, st1) /\
+    In (1, 102, true) st1 /\ arrived os1 1 102 /\ In (1, 101, false) st1 /\ ~ arrived os1 1 101.
+Proof.
+  cbv zeta. eexists. eexists. split; [vm_compute; reflexivity|].
+  split; [cbn; auto|]. split.
+  - eexists. split; [left; reflexivity|]. vm_compute. discriminate.
+  - split; [cbn; auto|]. intros (o & [Hin|[]] & Hk). inversion Hin; subst. apply Hk. vm_compute. reflexivity.
+Qed.
+Print Assumptions C08_received_iff_arrived_nonvacuous.
